@@ -37,6 +37,14 @@ def check(rep, ctx):
     R_E = rep.rule("C03-e-ms-exact", "millisecond timestamps/durations are decoded without coarsening (T-gran) and "
                    "64-bit durations without a float (T-float64)", floor=200,
                    necessary_because="wire value 1500 is decoded to 1 s; the value on the wire is lost")
+    R_OV = rep.rule("C03-f-no-over-read", "no read asks the caller's stream for the larger of what is needed and something else (read(max(...)))", floor=0,
+                   necessary_because="skipping an unknown tagged field with read(max(remaining, 4096)) swallows up to 4 KiB of what follows it")
+    from .. import scan as _scan
+    for o in _scan.over_reads(ctx, ["kio.serial.readers", "kio.serial._parse", "kio.records.readers"]):
+        rep.check(R_OV, False, construct=o["function"], stmt=o["stmt"],
+                  message=f"`{o['stmt']}` requests {o['size']} bytes: more than the item holds whenever the other operand is larger -- the bytes of "
+                          f"the next field, element or message are consumed and discarded", file=o["file"], line=o["line"])
+    rep.count(R_OV, 1, instance="scan")
     R_P = rep.rule("C03-plan", "a reader plan can be derived", floor=1600)
     factory_fn = None
     for key, cls, plan in W.classes():
